@@ -19,15 +19,18 @@ import WpModel.Model.PageState
 import WpModel.Model.PageSelectors
 import WpModel.Model.PdfBoxes
 import WpModel.Model.Break
+import WpModel.Model.PageGroups
 
 namespace Wp.PageDoc
-open Wp Wp.PageBoxes Wp.PageState Wp.PageSel
+open Wp Wp.PageBoxes Wp.PageState Wp.PageSel Wp.PageGroups
 
 /-- One item of a `content` list. -/
 inductive Item where
   | text (s : String)
   | counter (name : String)
   | str (name : String) (kw : Keyword)
+  /-- `element(name, keyword)`: a copy of a running element -/
+  | elem (name : String) (kw : Keyword)
   deriving Repr, BEq, Inhabited
 
 /-- A declared value of one of the properties the model interprets. -/
@@ -57,12 +60,28 @@ structure Section where
   lateSets : List (String × List SetPiece)
   /-- the section ends with a box whose `::before` shows `"p" counter(page) "of" counter(pages) "c" counter(c)` -/
   showCounters : Bool := false
+  /-- running elements (`position: running(name)`, text) among the children of the section, after its
+  first child -/
+  running : List (String × String) := []
+  /-- the section lies in a wrapper `<div style="page: name">` shared by the consecutive sections with
+  the same wrapper number -/
+  wrap : Option (Nat × String) := none
+  /-- position in the box tree (filled by `withPositions`): index among the children of `body`, and,
+  for a wrapped section, index among the children of its wrapper -/
+  bodyIndex : Nat := 0
+  innerIndex : Option Nat := none
   deriving Repr, BEq, Inhabited
+
+/-- The used `page` value of a section: its own, else (`page: auto`) that of its wrapper, else `''`. -/
+def Section.eff (s : Section) : String :=
+  if !s.name.isEmpty then s.name else match s.wrap with | some (_, w) => w | none => ""
 
 structure Doc where
   ltr : Bool
   rootBreak : Brk
   fontSize : Rat
+  /-- font size of the document content (running elements keep it inside margin boxes) -/
+  bodyFontSize : Rat := 4
   sections : List Section
   rules : List (PageRule Val)
 
@@ -71,17 +90,29 @@ structure Doc where
 /-- `_in_flow_layout`: `if page_name or force_page_break(page_break, context)` between two sibling
 sections (`block_level_page_name` returns the *new* name when it differs, and `''` is falsy). -/
 def breakBetween (prevName : String) (s : Section) : Bool :=
-  (prevName != s.name && !s.name.isEmpty) || forces false s.brk
+  (prevName != s.eff && !s.eff.isEmpty) || forces false s.brk
+
+/-- Fill in the tree positions: consecutive sections with the same wrapper number share one child of
+`body`. -/
+def withPositions : List Section → Nat → Option (Nat × Nat) → List Section
+  | [], _, _ => []
+  | s :: rest, next, cur =>
+    match s.wrap, cur with
+    | some (w, _), some (cw, j) =>
+      if w == cw then { s with bodyIndex := next - 1, innerIndex := some (j + 1) } :: withPositions rest next (some (cw, j + 1))
+      else { s with bodyIndex := next, innerIndex := some 0 } :: withPositions rest (next + 1) (some (w, 0))
+    | some (w, _), none => { s with bodyIndex := next, innerIndex := some 0 } :: withPositions rest (next + 1) (some (w, 0))
+    | none, _ => { s with bodyIndex := next, innerIndex := none } :: withPositions rest (next + 1) none
 
 /-- Group the sections into the content of successive non-blank pages, each with the request that
 started it. -/
 def chunks : List Section → Option (Request × List Section) → List (Request × List Section)
   | [], none => []
   | [], some cur => [cur]
-  | s :: rest, none => chunks rest (some (⟨.any, s.name⟩, [s]))
+  | s :: rest, none => chunks rest (some (⟨.any, s.eff⟩, [s]))
   | s :: rest, some (req, secs) =>
-    let prevName := match secs.getLast? with | some p => p.name | none => ""
-    if breakBetween prevName s then (req, secs) :: chunks rest (some (⟨.brk s.brk, s.name⟩, [s]))
+    let prevName := match secs.getLast? with | some p => p.eff | none => ""
+    if breakBetween prevName s then (req, secs) :: chunks rest (some (⟨.brk s.brk, s.eff⟩, [s]))
     else chunks rest (some (req, secs ++ [s]))
 
 /-- Pair the page heads with their content: a blank page has none. -/
@@ -95,9 +126,58 @@ def attach : List PageHead → List (Request × List Section) → List (PageHead
 
 /-- An empty document still has one page. -/
 def docPages (d : Doc) : List (PageHead × List Section) :=
-  let cs := chunks d.sections none
+  let cs := chunks (withPositions d.sections 0 none) none
   let reqs := if cs.isEmpty then [⟨.any, ""⟩] else cs.map (·.1)
   attach (pageSequence d.ltr reqs 0 (initRightPage d.rootBreak d.ltr)) cs
+
+/-! ## Page groups -/
+
+/-- The box tree as `_update_page_groups` sees it: html > body > (section | wrapper > section*); a
+section has its first child (which inherits its `page`). -/
+def sectionElt (s : Section) : Elt := .mk s.eff true true [.mk s.eff true true []]
+
+def bodyChildrenAux : List Section → Option (Nat × String × List Elt) → List Elt
+  | [], none => []
+  | [], some (_, wn, acc) => [.mk wn true true acc]
+  | s :: rest, cur =>
+    match s.wrap, cur with
+    | some (w, wn), some (cw, cwn, acc) =>
+      if w == cw then bodyChildrenAux rest (some (cw, cwn, acc ++ [sectionElt s]))
+      else .mk cwn true true acc :: bodyChildrenAux rest (some (w, wn, [sectionElt s]))
+    | some (w, wn), none => bodyChildrenAux rest (some (w, wn, [sectionElt s]))
+    | none, some (_, cwn, acc) => .mk cwn true true acc :: sectionElt s :: bodyChildrenAux rest none
+    | none, none => sectionElt s :: bodyChildrenAux rest none
+
+def bodyChildren (l : List Section) : List Elt := bodyChildrenAux l none
+
+def docTree (d : Doc) : Elt := .mk "" true true [.mk "" true true (bodyChildren d.sections)]
+
+/-- `resume_at` of a page that starts with section `s`: `{0: {body index: None | {inner index: None}}}`
+(a break before the first child of a wrapper is taken at `body` level). -/
+def resumeOf (s : Section) : RA :=
+  let inner : RA := match s.innerIndex with
+    | some (j + 1) => .dict (.cons (j + 1) .none .nil)
+    | _ => .none
+  .dict (.cons 0 (.dict (.cons s.bodyIndex inner .nil)) .nil)
+
+/-- Request and `resume_at` of every page: a blank page is made with those of the page that follows. -/
+def pageReqs : List (PageHead × List Section) → List (Request × RA) → List (Request × RA)
+  | [], _ => []
+  | (h, _) :: ps, rs =>
+    match rs with
+    | [] => (⟨.any, ""⟩, .none) :: pageReqs ps []
+    | r :: rs' => if h.blank then r :: pageReqs ps (r :: rs') else r :: pageReqs ps rs'
+
+/-- `remake_page` calls `_update_page_groups` once per page, in page order. -/
+def pageGroups (root : Elt) : List (Request × RA) → List Group → Except PyErr (List (List Group))
+  | [], _ => .ok []
+  | (req, ra) :: rest, gs =>
+    match updatePageGroups gs ra (req.nb == .any) req.name root with
+    | .error e => .error e
+    | .ok gs' =>
+      match pageGroups root rest gs' with
+      | .error e => .error e
+      | .ok l => .ok (gs' :: l)
 
 /-! ## Cascaded values -/
 
@@ -204,6 +284,15 @@ def collectStrings (pages : List ((PageHead × List Section) × CState)) : Excep
       go rest (n + 1) st
   go pages 1 []
 
+/-- `context.running_elements[name][page].append(child)` during layout, in document order. -/
+def collectRunning (pages : List (PageHead × List Section)) : Strings :=
+  let rec go (ps : List (PageHead × List Section)) (n : Nat) (st : Strings) : Strings :=
+    match ps with
+    | [] => st
+    | (_, secs) :: rest =>
+      go rest (n + 1) (secs.foldl (fun st s => s.running.foldl (fun st (k, v) => addAssign st n k v) st) st)
+  go pages 1 []
+
 def storeOf (st : Strings) (name : String) : NameStore :=
   match st.find? (fun e => e.1 == name) with
   | some (_, ns) => ns
@@ -216,20 +305,57 @@ def startChain (secs : List Section) (name : String) : List Bool :=
   | [] => [false, false, false]
   | s :: _ => [false, false, false, s.sets.any (·.1 == name), s.innerSets.any (·.1 == name)]
 
-def renderItem (st : Strings) (page : Nat) (secs : List Section) (cs : CState) : Item → Except PyErr String
-  | .text s => .ok s
+/-- A piece of laid-out margin-box content: an inline run of text (font size of the margin box), or the
+block copy of a running element (which keeps the font size it had in the document).
+Not modelled: the copy also keeps its `page` value; next to other content a non-empty page name makes
+`block_container_layout` stop and `margin_box_content_layout` fail its `assert resume_at is None` (known
+finding element-from-named-page-crashes-margin-box) — the documents take running elements only from
+unnamed pages. -/
+inductive Run where
+  | inline (text : String)
+  | block (text : String)
+  deriving Repr, BEq, Inhabited
+
+/-- Append text to the content: `add_text` extends the last `TextBox` if there is one. -/
+def addText (runs : List Run) (t : String) : List Run :=
+  if t.isEmpty then runs
+  else match runs.getLast? with
+    | some (.inline u) => runs.dropLast ++ [.inline (u ++ t)]
+    | _ => runs ++ [.inline t]
+
+/-- `compute_content_list` for the items of the documents.  `string()` / `element()` both go through
+`get_string_or_element_for`; for `element()` the `start` test still looks at the *`string-set`*
+declarations of the page's first boxes (the running elements are not in the page tree). -/
+def renderItem (st run : Strings) (page : Nat) (secs : List Section) (cs : CState) (runs : List Run) :
+    Item → Except PyErr (List Run)
+  | .text s => .ok (addText runs s)
   | .counter n => do
     let v ← counterValue cs n
-    pure (toString v)
+    pure (addText runs (toString v))
   | .str n kw => do
     let r ← getStringFor (storeOf st n) page kw (startChain secs n)
-    pure (r.getD "")
+    pure (addText runs (r.getD ""))
+  | .elem n kw => do
+    let r ← getStringFor (storeOf run n) page kw (startChain secs n)
+    match r with
+    | none => pure runs                       -- `if new_box is None: continue`
+    | some t => pure (runs ++ [.block t])
 
-def renderContent (st : Strings) (page : Nat) (secs : List Section) (cs : CState) (items : List Item) :
-    Except PyErr String :=
-  items.foldlM (fun acc it => do
-    let s ← renderItem st page secs cs it
-    pure (acc ++ s)) ""
+def renderContent (st run : Strings) (page : Nat) (secs : List Section) (cs : CState) (items : List Item) :
+    Except PyErr (List Run) :=
+  items.foldlM (fun acc it => renderItem st run page secs cs acc it) []
+
+def Run.text : Run → String
+  | .inline t => t
+  | .block t => t
+
+/-- (min-content, max-content) of the runs: every run is a line of its own; an inline run is set in the
+margin box's font size, a running element in the document's. -/
+def runsWidths (runs : List Run) (fs bodyFs : Rat) : Rat × Rat :=
+  runs.foldl (fun (acc : Rat × Rat) r =>
+    let f := match r with | .inline _ => fs | .block _ => bodyFs
+    let (mn, mx) := contentWidths (wordsOf r.text) f
+    (max acc.1 mn, max acc.2 mx)) (0, 0)
 
 /-- The sixteen margin boxes in the order `make_margin_boxes` makes them. -/
 def allKeywords : List String :=
@@ -238,7 +364,7 @@ def allKeywords : List String :=
       (fun sfx => "@" ++ row.pre ++ "-" ++ sfx))) ++ Gen.cornerTable.map (·.kw)
 
 /-- Style and text of one margin box. -/
-def marginStyle (d : Doc) (st : Strings) (pt : PageType) (page : Nat) (secs : List Section) (cs : CState)
+def marginStyle (d : Doc) (st run : Strings) (pt : PageType) (page : Nat) (secs : List Section) (cs : CState)
     (kw : String) : Except PyErr (MStyle × List String) := do
   let c := addPageDeclarations d.rules pt kw
   let content := match c.get "content" with
@@ -246,12 +372,14 @@ def marginStyle (d : Doc) (st : Strings) (pt : PageType) (page : Nat) (secs : Li
     | _ => none
   let fs := match getDim c "font-size" (.px d.fontSize) with | .px v => v | _ => d.fontSize
   let (generated, ws) ← match content with
-    | none => (pure (false, []) : Except PyErr (Bool × List String))
+    | none => (pure (false, []) : Except PyErr (Bool × List Run))
     | some items => do
       let ms ← marginState cs (rawCStyle c)
-      let t ← renderContent st page secs ms items
-      pure (true, wordsOf t)
-  let (minC, maxC) := contentWidths ws fs
+      let rs ← renderContent st run page secs ms items
+      pure (true, rs)
+  let (generated, rs) := (generated, ws)
+  let ws := rs.flatMap (fun r => wordsOf r.text)
+  let (minC, maxC) := runsWidths rs fs d.bodyFontSize
   pure ({ kw := kw, generated := generated
           width := getDim c "width" .auto, height := getDim c "height" .auto
           mt := getDim c "margin-top" (.px 0), mr := getDim c "margin-right" (.px 0)
@@ -270,25 +398,36 @@ structure PageOut where
   margin : List (Placed × List String)
   /-- texts of the page-counter boxes in the page content -/
   body : List String
+  /-- `PageType.groups` -/
+  groups : List (String × Nat) := []
 
-def pageTypeOf (h : PageHead) : PageType :=
-  { side := h.side.toCss, blank := h.blank, name := h.name, index := h.index, groups := [] }
+def pageTypeOf (h : PageHead) (groups : List Group := []) : PageType :=
+  { side := h.side.toCss, blank := h.blank, name := h.name, index := h.index,
+    groups := groups.map (fun g => (g.name, g.index)) }
 
 /-- The whole document. -/
 def render (d : Doc) : Except PyErr (List PageOut) := do
   let pages := docPages d
-  let cascades := pages.map (fun (h, _) => addPageDeclarations d.rules (pageTypeOf h) "")
+  -- page groups, page by page (`remake_page`), then the page types the selectors are matched against
+  let reqs := pageReqs pages ((chunks (withPositions d.sections 0 none) none).map (fun (r, secs) =>
+    (r, match secs with | s :: _ => resumeOf s | [] => RA.none)))
+  -- the first page is made with `resume_at = None`
+  let reqs := match reqs with | (r, _) :: rest => (r, RA.none) :: rest | [] => []
+  let groups ← pageGroups (docTree { d with sections := withPositions d.sections 0 none }) reqs []
+  let types := (pages.zip groups).map (fun ((h, _), gs) => pageTypeOf h gs)
+  let cascades := types.map (fun pt => addPageDeclarations d.rules pt "")
   let states ← pageStates (cascades.map rawCStyle) initialState
   let total := pages.length
   let st ← collectStrings (pages.zip (states.map (fun cs => setPages cs total)))
-  let rec go (ps : List ((PageHead × List Section) × Cascaded Val × CState)) (n : Nat) :
+  let run := collectRunning pages
+  let rec go (ps : List ((PageHead × List Section) × PageType × Cascaded Val × CState)) (n : Nat) :
       Except PyErr (List PageOut) :=
     match ps with
     | [] => pure []
-    | ((h, secs), c, cs) :: rest => do
+    | ((h, secs), pt, c, cs) :: rest => do
       let cs := setPages cs total
       let box := makePageBox (pageStyle c)
-      let styled ← allKeywords.mapM (fun kw => marginStyle d st (pageTypeOf h) n secs cs kw)
+      let styled ← allKeywords.mapM (fun kw => marginStyle d st run pt n secs cs kw)
       let placed ← makeMarginBoxes box.geom (styled.map (·.1))
       -- `margin_box_content_layout` → `block_container_layout` ends with
       -- `height = max(min(height, max_height), min_height)`; margin boxes of the documents have the
@@ -304,7 +443,8 @@ def render (d : Doc) : Except PyErr (List PageOut) := do
         let cc ← counterValue cs "c"
         pure ("p" ++ toString p ++ "of" ++ toString ps ++ "c" ++ toString cc))
       let tail ← go rest (n + 1)
-      pure ({ head := h, box := box, bleed := pageBleed c, counters := cs, margin := withText, body := body } :: tail)
-  go ((pages.zip (cascades.zip states))) 1
+      pure ({ head := h, box := box, bleed := pageBleed c, counters := cs, margin := withText, body := body,
+              groups := pt.groups } :: tail)
+  go (pages.zip (types.zip (cascades.zip states))) 1
 
 end Wp.PageDoc
